@@ -15,7 +15,7 @@ ROOT = os.path.dirname(os.path.dirname(os.path.abspath(__file__)))
 from pyvc import loader
 from pyvc.core import REG, MODELS
 from pyvc.runner import verify_contract, verify_lemma, UnitResult, finish_all
-from pyvc.discharge import get_model, discharge
+from pyvc.discharge import get_model, discharge, candidate_model
 from pyvc import replay as replay_mod
 from checks.plan import PLAN
 
@@ -141,7 +141,7 @@ def run_fuzz_all(units, plan, tier, seed):
         return {}
     todo = []
     for u in units:
-        if u.kind != "function" or u.status in ("anchor", "out_of_reach", "crash"):
+        if u.kind not in ("function", "c-function") or u.status in ("anchor", "out_of_reach", "crash"):
             continue
         cc = REG.contracts.get(u.name)
         if cc is not None and not cc.native_search:
@@ -270,6 +270,20 @@ def run_property(prop, tier, only=None, write_evidence=True):
             errors.append((u, "%s: %s %s" % (u.status, u.detail, ",".join(u.vacuous))))
         if u.status == "undecided":
             for ob in u.undecided:
+                # a model of the ground instances is a CANDIDATE input: replay it natively, the real code decides
+                if u.kind == "function" and "[ground-instance-model-exists]" in str(ob.info.get("reason", "")):
+                    try:
+                        m = candidate_model(ob)
+                        if m is not None:
+                            ob.model = m
+                            path, reproduced = handle_failure(prop, u, ob, plan["sidecars"], timeout_ms)
+                            if reproduced:
+                                ob.result = "sat"
+                                ob.backend = "z3 candidate model, confirmed by native replay"
+                                violations.append((u, ob, path, True))
+                                continue
+                    except Exception:
+                        pass
                 undecided.append((u, ob))
         if u.status == "failed":
             seen = set()
